@@ -1,0 +1,6 @@
+//go:build !verif
+
+package util
+
+// verifKillPoint does nothing in normal builds (see files_killpoint_verif.go)
+func verifKillPoint(string) {}
